@@ -86,9 +86,15 @@ def _drive(work: core.Work, name: str, paths: list, kinds: str, seed: int, tier:
 
 
 def _same(p: dict, e: dict, unit: int) -> bool:
-    if (p['w'], p['op'], p['res'], p['i']) != (e['w'], e['op'], e['res'], e['i']):
+    # which name the temp gets is the writer's choice: names are not compared
+    if (p['w'], p['op'], p['res']) != (e['w'], e['op'], e['res']):
         return False
     return p['op'] not in ('bcall', 'write') or p['n'] * unit == e['n']
+
+
+def _steps(evs: list) -> list:
+    """A schedule without the attempts at names that were taken (how many there are depends on the naming)."""
+    return [e for e in evs if not (e['op'] == 'open' and e['res'] == 'exists')]
 
 
 def run(tier: str, seed: int) -> int:
@@ -204,8 +210,9 @@ def run(tier: str, seed: int) -> int:
                 impl_ops[k] = impl_ops.get(k, 0) + 1
             if r['plan']:
                 scheduled += 1
-                ev = r['ev'][:-1]
-                if len(ev) == len(r['plan']) and all(_same(a, b, r['unit']) for a, b in zip(r['plan'], ev)):
+                ev = _steps(r['ev'][:-1])
+                plan = _steps(r['plan'])
+                if len(ev) == len(plan) and all(_same(a, b, r['unit']) for a, b in zip(plan, ev)):
                     followed += 1
         for j in (0, len(rs) // 5, len(rs) // 2, (len(rs) * 4) // 5, len(rs) - 1):
             mid = rs[j]
